@@ -408,6 +408,8 @@ func c06ContextScenario() *hist.Scenario {
 			`{{define "ph"}}<p>{{.S | html}}</p>{{end}}{{define "pq"}}<p>{{.S}}</p>{{end}}` +
 			// a callee that only extends the static URL prefix, used by two call sites
 			`{{define "T"}}?q={{end}}{{define "A"}}<a href="/p{{template "T"}}{{.S}}">a</a>{{end}}{{define "B"}}<a href="/p{{template "T"}}{{.S}}">b</a>{{end}}` +
+			// fails at run time after part of the output was produced
+			`{{define "rtf"}}<em>partial</em><script>{{.S}}</script>{{end}}` +
 			`R{{template "top" .}}`,
 		Data: append(histData(), map[string]interface{}{"S": suc.HTMLFromStringKnownToSatisfyTypeContract("<b>x</b>"), "L": []string{}}),
 	}
@@ -427,6 +429,10 @@ func c06ContextAlphabet() []hist.Op {
 	for _, name := range []string{"A", "B"} {
 		ops = append(ops, hist.Op{Kind: hist.Exec, H: 0, Form: 2, Name: name, Arg: 0})
 	}
+	for _, name := range []string{"rtf", "top", "pq"} {
+		ops = append(ops, hist.Op{Kind: hist.Exec, H: 0, Form: 3, Name: name, Arg: 0})
+	}
+	ops = append(ops, hist.Op{Kind: hist.Exec, H: 0, Form: 1, Arg: 0}, hist.Op{Kind: hist.CSP, H: 0})
 	return ops
 }
 
